@@ -17,14 +17,19 @@ Line-protocol driver for the C11 models.
   page <fam> <ser> <fld>                                 the write buffer page (debug/correspondence)
   msel <lens,...> <qs> <qe> | <family days ...>          month-type family selection
   fcall <func> <intervalSec> <value>                     a function call of the expression layer on one value
+  x <points> <intervalSec> | <expr> | <fld>:<ftype>:<agg>:<t>=<v>,... ...
+                                                         a select item evaluated on the field store of one group
+                                                         (one token per array; `<fld>:<ftype>:-` a field without arrays)
+expr (prefix): f <fld> | c <func> <expr> | n <int> | p <expr> | b <op 0..3 = + - * /> <expr> <expr>
 cond (prefix): all | eq k v | in k v,v | and c c | or c c
 -/
 import LinVerif.Util.Proto
 import LinVerif.Model.MemDB
+import LinVerif.Model.QueryExpr
 import LinVerif.Generated.C11
 
 namespace LinVerif.Driver.C11
-open LinVerif LinVerif.NaiveQuery LinVerif.MemDB
+open LinVerif LinVerif.NaiveQuery LinVerif.MemDB LinVerif.QueryExpr
 
 /-- the code variant the regenerated facts describe. -/
 def cfgOfFacts : Cfg :=
@@ -121,6 +126,83 @@ def parseQ (rest : List String) : Option QArgs :=
     let items ← items.mapM parseItem
     if ratio = 0 ∨ qe < qs ∨ items.isEmpty then none
     some ⟨qs, qe, ratio, cond, by_, items⟩
+  | _ => none
+
+/-- prefix expression parser with fuel. -/
+def parseExpr : Nat → List String → Option (Expr × List String)
+  | 0, _ => none
+  | _ + 1, "f" :: fld :: rest => do
+    let fld ← fld.toNat?
+    some (.field fld, rest)
+  | _ + 1, "n" :: v :: rest => do
+    let v ← v.toInt?
+    some (.num v, rest)
+  | n + 1, "c" :: fn :: rest => do
+    let fn ← fn.toNat?
+    let fn ← FuncType.ofCode? fn
+    let (e, r) ← parseExpr n rest
+    some (.call fn e, r)
+  | n + 1, "p" :: rest => do
+    let (e, r) ← parseExpr n rest
+    some (.paren e, r)
+  | n + 1, "b" :: op :: rest => do
+    let op ← match op with
+      | "0" => some BinOp.add | "1" => some BinOp.sub | "2" => some BinOp.mul | "3" => some BinOp.div
+      | _ => none
+    let (l, r1) ← parseExpr n rest
+    let (r, r2) ← parseExpr n r1
+    some (.bin op l r, r2)
+  | _ + 1, _ => none
+
+def parseCellEq (w : String) : Option (Nat × Int) :=
+  match w.splitOn "=" with
+  | [a, b] => do
+    let t ← a.toNat?
+    let v ← b.toInt?
+    some (t, v)
+  | _ => none
+
+/-- one store token: adds the field and (unless `-`) one array to the store. -/
+def addStoreToken (st : Store) (w : String) : Option Store :=
+  match w.splitOn ":" with
+  | [fld, ft, "-"] => do
+    let fld ← fld.toNat?
+    let ft ← ft.toNat?
+    let ft ← FieldType.ofCode? ft
+    match Map.lookup st fld with
+    | some _ => some st
+    | none => some (st ++ [(fld, ⟨ft, []⟩)])
+  | [fld, ft, agg, cells] => do
+    let fld ← fld.toNat?
+    let ft ← ft.toNat?
+    let ft ← FieldType.ofCode? ft
+    let agg ← agg.toNat?
+    let agg ← AggType.ofCode? agg
+    let cells ← if cells = "" then some [] else (cells.splitOn ",").mapM parseCellEq
+    match Map.lookup st fld with
+    | some fv => some (Map.upsert st fld ⟨fv.ftype, fv.arrs ++ [(agg, cells)]⟩)
+    | none => some (st ++ [(fld, ⟨ft, [(agg, cells)]⟩)])
+  | _ => none
+
+def showRat (r : Rat) : String := s!"{r.num}/{r.den}"
+
+def showEVal (n : Nat) : EVal → String
+  | .empty => "empty"
+  | .nilArr => "nilarr"
+  | .crash => "crash"
+  | .arr a =>
+    let cells := (List.range n).filterMap (fun i => (a.get i).map (fun v => s!"{i}={showRat v}"))
+    if cells.isEmpty then "arr" else "arr " ++ " ".intercalate cells
+
+def runExpr (rest : List String) : Option String :=
+  match splitBar rest with
+  | [[n, sec], ex, store] => do
+    let n ← n.toNat?
+    let sec ← sec.toNat?
+    let (e, left) ← parseExpr 64 ex
+    if !left.isEmpty then none
+    let st ← store.foldlM addStoreToken ([] : Store)
+    some (showEVal n (evalItem Generated.C11.fixRateNilGuard n sec st e))
   | _ => none
 
 def fieldTypeOf (st : St) (fld : Nat) : Option FieldType := Map.lookup st.shard.fieldTypes fld
@@ -265,6 +347,10 @@ def step (st : St) (ws : List String) : St × String :=
         | none => (st, "no-page")
       | none => (st, "no-memdb")
     | _, _, _ => (st, "bad-op")
+  | "x" :: rest =>
+    match runExpr rest with
+    | some out => (st, out)
+    | none => (st, "bad-op")
   | ["fcall", fn, sec, v] =>
     match fn.toNat?, sec.toNat?, v.toInt? with
     | some fn, some sec, some v =>
